@@ -254,4 +254,51 @@ def internalCvUsesCvNc (kr kp : Nat) : Bool := icvUsesCvNc kr kp = 1
 /-- does `bootstrap_crossval` cross-validate a sample with these numbers of distinct groups -/
 def bootcvRuns (nRdmGroups kr nPatGroups kp : Nat) : Bool := bootcvGuard nRdmGroups kr nPatGroups kp = 1
 
+/-! ### (round 4) sessions: one object used by several successive calls
+
+A *session* is a list of steps executed one after the other on one state `σ` (the content of the
+RDMs object: descriptors and dissimilarities — or, one level up, the lists a generator handed out).
+A step is either a library **call** `c : κ` (a fold generator, `crossval`, …) — it returns a value
+computed from the state it finds, and *as coded* may leave the state altered — or an explicit
+**edit** by the user (a descriptor re-assigned, dissimilarities overwritten in place).
+What a call does to the state is not assumed: `callEffect` is built from the leaf `inputWrites`, the
+number of statements of the anchored functions that store into an object reachable from a parameter
+(static analysis of the current source, `harness/leaves/C05.py`).  With write count `w` the state after
+a call is `wr c s` (whatever the write does — the theorems quantify over every `wr`) unless `w = 0`. -/
+
+inductive Step (κ σ : Type) where
+  | call (c : κ)
+  | edit (f : σ → σ)
+
+/-- the state a call leaves behind when the anchored functions contain `w` in-place writes -/
+def callEffectW {κ σ : Type} (w : Nat) (wr : κ → σ → σ) (c : κ) (s : σ) : σ :=
+  if w = 0 then s else wr c s
+
+/-- as coded: the write count is the source-derived leaf -/
+def callEffect {κ σ : Type} (wr : κ → σ → σ) : κ → σ → σ := callEffectW inputWrites wr
+
+/-- run a session; per step: the value returned (`none` for an edit) and the state after the step -/
+def runSteps {κ σ ρ : Type} (eff : κ → σ → σ) (result : κ → σ → ρ) :
+    List (Step κ σ) → σ → List (Option ρ × σ)
+  | [], _ => []
+  | .call c :: rest, s => (some (result c s), eff c s) :: runSteps eff result rest (eff c s)
+  | .edit f :: rest, s => (none, f s) :: runSteps eff result rest (f s)
+
+/-- specification: the content after a list of steps if calls had no effect at all — only the user's
+    edits count -/
+def editsOnly {κ σ : Type} : List (Step κ σ) → σ → σ
+  | [], s => s
+  | .call _ :: rest, s => editsOnly rest s
+  | .edit f :: rest, s => editsOnly rest (f s)
+
+/-- specification of one step of a session: a call returns the value of the *stand-alone* call on the
+    content produced by the edits before it; the content after the step is that of the edits alone -/
+def stepSpec {κ σ ρ : Type} (result : κ → σ → ρ) (steps : List (Step κ σ)) (s : σ) (k : Nat) :
+    Option (Option ρ × σ) :=
+  (steps[k]?).map fun st =>
+    (match st with
+      | .call c => some (result c (editsOnly (steps.take k) s))
+      | .edit _ => none,
+     editsOnly (steps.take (k + 1)) s)
+
 end Rsa.Folds
